@@ -1,0 +1,312 @@
+//go:build verif
+
+// Contracts for lexer.go, read by /verif/vcgen (comment-only; adds no code).
+
+package memefish
+
+// ---------------------------------------------------------------------------------------------
+// Trusted contracts of external functions (listed in every evidence file).
+
+// @ func unicode/utf8.DecodeRuneInString
+// @   trusted
+// @   modifies nothing
+// @   ensures len(s) == 0 ==> result1 == 0 && result0 == 65533
+// @   ensures len(s) > 0 ==> 1 <= result1 && result1 <= 4 && result1 <= len(s)
+// @   ensures len(s) > 0 && s[0] < 128 ==> result0 == s[0] && result1 == 1
+// @   ensures len(s) > 0 && s[0] >= 128 ==> result0 >= 128
+// @   ensures result1 > 1 ==> (forall j: 0 <= j && j < result1 ==> s[j] >= 128)
+// @   ensures 0 <= result0 && result0 <= 1114111
+
+// @ spec isSpaceASCII(c) = (9 <= c && c <= 13) || c == 32
+
+// @ func unicode.IsSpace
+// @   trusted
+// @   modifies nothing
+// @   ensures 0 <= r && r < 128 ==> (result <==> isSpaceASCII(r))
+
+// @ func fmt.Sprintf
+// @   trusted
+// @   modifies nothing
+
+// ---------------------------------------------------------------------------------------------
+// Vocabulary
+
+// @ spec LexInv(l) = l != nil && l.File != nil && 0 <= l.pos && l.pos <= len(l.Buffer) && (isNil(l.File.lines) || LinesInv(l.File.lines, l.Buffer))
+// @ spec FileInv(l) = l != nil && l.File != nil && (isNil(l.File.lines) || LinesInv(l.File.lines, l.Buffer))
+// every ASCII byte of buf[a:b] is ASCII whitespace (non-ASCII bytes belong to multi-byte runes
+// accepted by unicode.IsSpace)
+// @ spec spaceOnly(buf, a, b) = forall k: a <= k && k < b ==> (buf[k] < 128 ==> isSpaceASCII(buf[k]))
+// @ spec validRange(l, a, b) = 0 <= a && a <= b && b <= len(l.Buffer)
+
+// ---------------------------------------------------------------------------------------------
+// One-line helpers
+
+// @ func memefish.(*Lexer).peek
+// @   props C03 C13
+// @   requires l != nil && l.File != nil && 0 <= l.pos + i && l.pos + i < len(l.Buffer)
+// @   ensures result == l.Buffer[l.pos + i]
+// @   modifies nothing
+
+// @ func memefish.(*Lexer).peekOk
+// @   props C03 C13
+// @   requires l != nil && l.File != nil
+// @   ensures result == (l.pos + i < len(l.Buffer))
+// @   modifies nothing
+
+// @ func memefish.(*Lexer).peekIs
+// @   props C03 C13
+// @   requires l != nil && l.File != nil && 0 <= l.pos + i
+// @   ensures result == (l.pos + i < len(l.Buffer) && l.Buffer[l.pos + i] == c)
+// @   modifies nothing
+
+// @ func memefish.(*Lexer).skip
+// @   props C03 C13
+// @   requires LexInv(l) && l.pos < len(l.Buffer)
+// @   ensures l.pos == old(l.pos) + 1 && result == l.Buffer[old(l.pos)]
+// @   modifies l.pos
+
+// @ func memefish.(*Lexer).skipN
+// @   props C03 C13
+// @   requires LexInv(l) && 0 <= n && l.pos + n <= len(l.Buffer)
+// @   ensures l.pos == old(l.pos) + n
+// @   modifies l.pos
+
+// @ func memefish.(*Lexer).slice
+// @   props C03 C13
+// @   requires LexInv(l) && 0 <= start && start <= end && l.pos + start <= len(l.Buffer)
+// @   ensures isSub(result, l.Buffer, l.pos + start, min(l.pos + end, len(l.Buffer)))
+// @   modifies nothing
+
+// @ func memefish.(*Lexer).eof
+// @   props C03 C13
+// @   requires l != nil && l.File != nil
+// @   ensures result == (l.pos >= len(l.Buffer))
+// @   modifies nothing
+
+// ---------------------------------------------------------------------------------------------
+// Errors. Every *Error carries a Position inside the buffer (C09, C20): this is the precondition
+// of the constructors and is checked at each call site.
+
+// @ func memefish.(*Lexer).errorf
+// @   props C03 C09
+// @   requires LexInv(l)
+// @   ensures LexInv(l)
+// @   ensures result != nil && fresh(result)
+// @   ensures result.Position != nil && result.Position.Pos == l.pos && result.Position.End == l.pos
+// @   modifies l.File.lines
+
+// @ func memefish.(*Lexer).errorfAtPosition
+// @   props C03 C09
+// @   requires FileInv(l)
+// @   requires[C03,C09,C20] errpos: validRange(l, pos, end)
+// @   ensures FileInv(l)
+// @   ensures result != nil && fresh(result)
+// @   ensures result.Position != nil && result.Position.Pos == pos && result.Position.End == end
+// @   modifies l.File.lines
+
+// @ func memefish.(*Lexer).panicf
+// @   props C03 C09
+// @   requires LexInv(l)
+// @   panics always
+// @   modifies l.File.lines
+
+// @ func memefish.(*Lexer).panicfAtPosition
+// @   props C03 C09
+// @   requires FileInv(l)
+// @   requires[C03,C09,C20] errpos: validRange(l, pos, end)
+// @   panics always
+// @   modifies l.File.lines
+
+// ---------------------------------------------------------------------------------------------
+// Trivia
+
+// @ func memefish.(*Lexer).skipSpaces
+// @   props C03 C13
+// @   requires LexInv(l)
+// @   ensures LexInv(l) && old(l.pos) <= l.pos
+// @   ensures[C13] space: spaceOnly(l.Buffer, old(l.pos), l.pos)
+// @   modifies l.pos
+// @   loop 0 invariant LexInv(l) && old(l.pos) <= l.pos
+// @   loop 0 invariant[C13] space: spaceOnly(l.Buffer, old(l.pos), l.pos)
+// @   loop 0 decreases len(l.Buffer) - l.pos
+
+// @ func memefish.(*Lexer).skipCommentUntil
+// @   props C03 C13
+// @   requires LexInv(l) && len(end) >= 1 && len(end) <= 2
+// @   ensures LexInv(l) && old(l.pos) <= l.pos
+// @   ensures result ==> mustEnd && noPanic && l.pos == len(l.Buffer)
+// @   ensures[C13] closed: !result ==> (l.pos == len(l.Buffer) && !mustEnd) || (l.pos - len(end) >= old(l.pos) && l.Buffer[l.pos - len(end):l.pos] == end)
+// @   panics when mustEnd && !noPanic
+// @   modifies l.pos, l.File.lines
+// @   loop 0 invariant LexInv(l) && old(l.pos) <= l.pos && l.File.lines == old(l.File.lines)
+// @   loop 0 decreases len(l.Buffer) - l.pos
+
+// A comment starts at p: '#', '--', '//' (to end of line) or '/*' (to '*/').
+// @ spec lineCommentAt(buf, p) = p < len(buf) && (buf[p] == '#' || (p + 1 < len(buf) && ((buf[p] == '-' && buf[p + 1] == '-') || (buf[p] == '/' && buf[p + 1] == '/'))))
+// @ spec blockCommentAt(buf, p) = p + 1 < len(buf) && buf[p] == '/' && buf[p + 1] == '*'
+
+// @ func memefish.(*Lexer).skipComment
+// @   props C03 C13
+// @   requires LexInv(l)
+// @   ensures LexInv(l) && old(l.pos) <= l.pos
+// @   ensures result ==> noPanic && l.pos == len(l.Buffer) && l.pos > old(l.pos)
+// @   ensures[C14] opener: (l.pos > old(l.pos)) <==> (lineCommentAt(l.Buffer, old(l.pos)) || blockCommentAt(l.Buffer, old(l.pos)))
+// @   ensures[C13,C14] line: !result && lineCommentAt(l.Buffer, old(l.pos)) ==> l.pos == len(l.Buffer) || l.Buffer[l.pos - 1] == 10
+// @   ensures[C13,C14] block: !result && !lineCommentAt(l.Buffer, old(l.pos)) && blockCommentAt(l.Buffer, old(l.pos)) ==> l.pos >= old(l.pos) + 2 && l.Buffer[l.pos - 2] == '*' && l.Buffer[l.pos - 1] == '/'
+// @   panics when !noPanic
+// @   modifies l.pos, l.File.lines
+
+// ---------------------------------------------------------------------------------------------
+// Tokens
+
+// @ func memefish.isNextDotIdent
+// @   props C14
+// @   ensures result == (t == "<ident>" || t == "<param>" || t == ")" || t == "]")
+// @   modifies nothing
+
+// @ func memefish.(*Lexer).peekDelimiter
+// @   props C03 C13 C14
+// @   requires LexInv(l) && l.pos < len(l.Buffer) && (l.Buffer[l.pos] == '"' || l.Buffer[l.pos] == 39)
+// @   ensures (len(result) == 1 || len(result) == 3) && l.pos + len(result) <= len(l.Buffer)
+// @   ensures result[0] == l.Buffer[l.pos] && (len(result) == 3 ==> result[1] == result[0] && result[2] == result[0] && l.Buffer[l.pos + 1] == result[0] && l.Buffer[l.pos + 2] == result[0])
+// @   ensures[C14] len(result) == 3 <==> (l.pos + 2 < len(l.Buffer) && l.Buffer[l.pos + 1] == l.Buffer[l.pos] && l.Buffer[l.pos + 2] == l.Buffer[l.pos])
+// @   modifies nothing
+// @   loop 0 invariant 1 <= i && i <= 3 && triple && (forall j: 0 <= j && j < i ==> l.pos + j < len(l.Buffer) && l.Buffer[l.pos + j] == c)
+// @   loop 0 decreases 3 - i
+
+// consumeNumber is entered on a digit, or on '.' followed by a digit.
+// @ func memefish.(*Lexer).consumeNumber
+// @   props C03 C13
+// @   requires LexInv(l) && l.pos < len(l.Buffer)
+// @   requires isDigit(l.Buffer[l.pos]) || (l.Buffer[l.pos] == '.' && l.pos + 1 < len(l.Buffer) && isDigit(l.Buffer[l.pos + 1]))
+// @   ensures LexInv(l) && old(l.pos) < l.pos
+// @   ensures l.Token.Kind == "<int>" || l.Token.Kind == "<float>" || l.Token.Kind == "<bad>"
+// @   ensures !noPanic ==> l.Token.Kind != "<bad>"
+// @   panics when !noPanic
+// @   modifies l.pos, l.Token.Kind, l.Token.Base, l.File.lines
+// @   loop 0 invariant LexInv(l) && l.pos == old(l.pos) && 0 <= i && l.pos + i <= len(l.Buffer) && (base == 10 || base == 16) && l.Token.Kind == old(l.Token.Kind)
+// @   loop 0 invariant i == 0 ==> base == 10 && int && !exp
+// @   loop 0 invariant base == 16 ==> i >= 2
+// @   loop 0 decreases len(l.Buffer) - l.pos - i
+
+// @ func strconv.ParseUint
+// @   trusted
+// @   modifies nothing
+// @   ensures result1 == nil ==> len(s) >= 1 && 0 <= result0
+// @   ensures result1 == nil && bitSize == 8 ==> result0 <= 255
+// @   ensures result1 == nil && bitSize == 32 ==> result0 <= 4294967295
+
+// @ func unicode/utf8.EncodeRune
+// @   trusted
+// @   requires len(p) >= 4
+// @   ensures 1 <= result && result <= 4
+// @   modifies nothing
+
+// consumeQuotedContent is entered with l.pos at the opening delimiter q (1 or 3 quote bytes).
+// On success the literal is closed by q and l.pos is just past the closing delimiter.
+// @ func memefish.(*Lexer).consumeQuotedContent
+// @   props C03 C13
+// @   requires LexInv(l) && (len(q) == 1 || len(q) == 3) && l.pos + len(q) <= len(l.Buffer)
+// @   ensures LexInv(l) && old(l.pos) + len(q) <= l.pos
+// @   ensures result1 ==> noPanic
+// @   ensures[C13,C14] closed: !result1 ==> l.pos >= old(l.pos) + 2 * len(q) && l.Buffer[l.pos - len(q):l.pos] == q
+// @   panics when !noPanic
+// @   modifies l.pos, l.File.lines
+// @   loop 0 invariant LexInv(l) && l.pos == old(l.pos) && len(q) <= i && l.pos + i <= len(l.Buffer) && (hasError ==> noPanic) && l.File.lines == old(l.File.lines)
+// @   loop 0 decreases len(l.Buffer) - l.pos - i
+// @   loop 1 invariant 0 <= j && j <= 2 && (hasError ==> noPanic) && l.pos + i + j <= len(l.Buffer)
+// @   loop 1 decreases 2 - j
+// @   loop 2 invariant 0 <= j && j <= size && (hasError ==> noPanic) && l.pos + i + j <= len(l.Buffer)
+// @   loop 2 decreases size - j
+// @   loop 3 invariant 0 <= j && j <= 2 && (hasError ==> noPanic) && l.pos + i + j <= len(l.Buffer)
+// @   loop 3 decreases 2 - j
+
+// @ spec atQuote(l) = LexInv(l) && l.pos < len(l.Buffer) && (l.Buffer[l.pos] == '"' || l.Buffer[l.pos] == 39)
+
+// @ func memefish.(*Lexer).consumeRawBytes
+// @   props C03 C13
+// @   requires atQuote(l)
+// @   ensures LexInv(l) && old(l.pos) < l.pos && (l.Token.Kind == "<bytes>" || l.Token.Kind == "<bad>") && (!noPanic ==> l.Token.Kind != "<bad>")
+// @   panics when !noPanic
+// @   modifies l.pos, l.Token.Kind, l.Token.AsString, l.File.lines
+
+// @ func memefish.(*Lexer).consumeBytes
+// @   props C03 C13
+// @   requires atQuote(l)
+// @   ensures LexInv(l) && old(l.pos) < l.pos && (l.Token.Kind == "<bytes>" || l.Token.Kind == "<bad>") && (!noPanic ==> l.Token.Kind != "<bad>")
+// @   panics when !noPanic
+// @   modifies l.pos, l.Token.Kind, l.Token.AsString, l.File.lines
+
+// @ func memefish.(*Lexer).consumeRawString
+// @   props C03 C13
+// @   requires atQuote(l)
+// @   ensures LexInv(l) && old(l.pos) < l.pos && (l.Token.Kind == "<string>" || l.Token.Kind == "<bad>") && (!noPanic ==> l.Token.Kind != "<bad>")
+// @   panics when !noPanic
+// @   modifies l.pos, l.Token.Kind, l.Token.AsString, l.File.lines
+
+// @ func memefish.(*Lexer).consumeString
+// @   props C03 C13
+// @   requires atQuote(l)
+// @   ensures LexInv(l) && old(l.pos) < l.pos && (l.Token.Kind == "<string>" || l.Token.Kind == "<bad>") && (!noPanic ==> l.Token.Kind != "<bad>")
+// @   panics when !noPanic
+// @   modifies l.pos, l.Token.Kind, l.Token.AsString, l.File.lines
+
+// @ func memefish.(*Lexer).consumeToken
+// @   props C03 C13
+// @   requires LexInv(l)
+// @   ensures LexInv(l) && old(l.pos) <= l.pos
+// @   ensures (l.Token.Kind == "<eof>") == (old(l.pos) >= len(l.Buffer))
+// @   ensures l.Token.Kind == "<eof>" ==> l.pos == old(l.pos)
+// @   ensures l.Token.Kind != "<eof>" ==> l.pos > old(l.pos)
+// @   ensures !noPanic ==> l.Token.Kind != "<bad>"
+// @   panics when !noPanic
+// @   modifies l.pos, l.Token.Kind, l.Token.AsString, l.Token.Base, l.dotIdent, l.File.lines
+// @   loop 0 invariant LexInv(l) && l.pos == old(l.pos) && 1 <= i && l.pos + i <= len(l.Buffer)
+// @   loop 0 decreases len(l.Buffer) - l.pos - i
+// @   loop 1 invariant LexInv(l) && l.pos == old(l.pos) && 0 <= i && i <= 3 && l.Token.Kind == old(l.Token.Kind)
+// @   loop 1 decreases 3 - i
+// @   loop 2 invariant LexInv(l) && l.pos == old(l.pos) && 0 <= i && l.pos + i <= len(l.Buffer) && (i == 0 ==> l.pos < len(l.Buffer) && isIdentStart(l.Buffer[l.pos])) && l.Token.Kind == old(l.Token.Kind)
+// @   loop 2 decreases len(l.Buffer) - l.pos - i
+
+// @ func memefish.(*Lexer).consumeFieldToken
+// @   props C03 C13
+// @   requires LexInv(l)
+// @   ensures LexInv(l) && old(l.pos) <= l.pos
+// @   ensures (l.Token.Kind == "<eof>") == (old(l.pos) >= len(l.Buffer))
+// @   ensures l.Token.Kind == "<eof>" ==> l.pos == old(l.pos)
+// @   ensures l.Token.Kind != "<eof>" ==> l.pos > old(l.pos)
+// @   ensures !noPanic ==> l.Token.Kind != "<bad>"
+// @   panics when !noPanic
+// @   modifies l.pos, l.Token.Kind, l.Token.AsString, l.Token.Base, l.dotIdent, l.File.lines
+// @   loop 0 invariant LexInv(l) && l.pos == old(l.pos) && 0 <= i && l.pos + i <= len(l.Buffer) && (i == 0 ==> l.pos < len(l.Buffer) && isIdentPart(l.Buffer[l.pos]))
+// @   loop 0 decreases len(l.Buffer) - l.pos - i
+
+// ---------------------------------------------------------------------------------------------
+// nextToken: the lossless-lexing contract (C13).
+//   p0 = old(l.pos); n = len(Comments); cEnd(k) = end of comment k; the trivia and the token tile
+//   [p0, l.pos): p0 |space_0|comment_0|space_1|comment_1| ... |space_n|token| l.pos
+
+// @ spec cStart(l, p0, k) = ite(k == 0, p0, l.Token.Comments[k - 1].End)
+// @ spec commentOK(l, p0, k) = p0 <= cStart(l, p0, k) && cStart(l, p0, k) <= l.Token.Comments[k].Pos && l.Token.Comments[k].Pos < l.Token.Comments[k].End && l.Token.Comments[k].End <= len(l.Buffer) && isSub(l.Token.Comments[k].Space, l.Buffer, cStart(l, p0, k), l.Token.Comments[k].Pos) && isSub(l.Token.Comments[k].Raw, l.Buffer, l.Token.Comments[k].Pos, l.Token.Comments[k].End) && spaceOnly(l.Buffer, cStart(l, p0, k), l.Token.Comments[k].Pos)
+// @ spec commentsOK(l, p0) = forall k: 0 <= k && k < len(l.Token.Comments) ==> commentOK(l, p0, k)
+// @ spec triviaEnd(l, p0) = ite(len(l.Token.Comments) == 0, p0, l.Token.Comments[len(l.Token.Comments) - 1].End)
+
+// @ func memefish.(*Lexer).nextToken
+// @   props C03 C13
+// @   requires LexInv(l)
+// @   ensures LexInv(l) && l.Token.End == l.pos && old(l.pos) <= l.Token.Pos && l.Token.Pos <= l.Token.End
+// @   ensures[C13] comments: commentsOK(l, old(l.pos))
+// @   ensures[C13] tile: old(l.pos) <= triviaEnd(l, old(l.pos)) && triviaEnd(l, old(l.pos)) <= l.Token.Pos
+// @   ensures[C13] space: l.Token.Kind != "<bad>" || l.Token.Pos < l.Token.End ==> isSub(l.Token.Space, l.Buffer, triviaEnd(l, old(l.pos)), l.Token.Pos) && spaceOnly(l.Buffer, triviaEnd(l, old(l.pos)), l.Token.Pos)
+// @   ensures[C13] raw: isSub(l.Token.Raw, l.Buffer, l.Token.Pos, l.Token.End) || (len(l.Token.Raw) == 0 && l.Token.Pos == l.Token.End)
+// @   ensures[C13] eof: l.Token.Kind == "<eof>" ==> l.Token.Pos == len(l.Buffer) && l.Token.End == len(l.Buffer)
+// @   ensures[C13] nonempty: l.Token.Kind != "<eof>" && l.Token.Kind != "<bad>" ==> l.Token.Pos < l.Token.End
+// @   ensures[C13,C03] progress: l.Token.Kind != "<eof>" ==> l.pos > old(l.pos)
+// @   ensures l.lastTokenKind == old(l.Token.Kind)
+// @   ensures !noPanic ==> l.Token.Kind != "<bad>"
+// @   panics when !noPanic
+// @   modifies l.pos, l.Token.*, l.lastTokenKind, l.dotIdent, l.File.lines
+// @   loop 0 invariant LexInv(l) && old(l.pos) <= l.pos && l.pos == triviaEnd(l, old(l.pos))
+// @   loop 0 invariant commentsOK(l, old(l.pos))
+// @   loop 0 invariant l.lastTokenKind == old(l.Token.Kind)
+// @   loop 0 decreases len(l.Buffer) - l.pos
